@@ -4,6 +4,7 @@ import (
 	"fmt"
 	"net"
 	"reflect"
+	"strings"
 	"testing"
 	"time"
 
@@ -19,7 +20,7 @@ import (
 // ---- C14: schema-change events reach every registered client exactly once, and only those ----
 
 type c14Action struct {
-	Op     string   `json:"op"` // register | disconnect | connect | emit | failover | stuck
+	Op     string   `json:"op"` // register | disconnect | connect | emit | failover | stuck | burst_stalled
 	Client int      `json:"client"`
 	Events []string `json:"events,omitempty"` // register: event types
 	Kind   string   `json:"kind,omitempty"`   // emit: schema | topology | status
@@ -296,6 +297,32 @@ func c14Check(c c14Case) *evid.Fail {
 					s2.seen = s2.cl.NumFrames()
 				}
 			}
+		case "burst_stalled":
+			// a registered client stops reading while the backend emits a long burst of big events; it is closed a
+			// moment later. Every other registered client is owed the whole burst, in order (the proxy may make them
+			// wait for the stalled client, but it may not drop anything).
+			if !st.connected || !st.registered || !controlUp() {
+				continue
+			}
+			st.cl.PauseReads()
+			var evs []message.Message
+			var kinds []primitive.EventType
+			for k := 0; k < a.N; k++ {
+				evN++
+				evs = append(evs, &message.SchemaChangeEvent{ChangeType: primitive.SchemaChangeTypeUpdated, Target: primitive.SchemaChangeTargetTable, Keyspace: fmt.Sprintf("ks_%d", evN), Object: strings.Repeat("o", 4000)})
+				kinds = append(kinds, primitive.EventTypeSchemaChange)
+			}
+			stalled := st.cl
+			go func() {
+				time.Sleep(150 * time.Millisecond)
+				stalled.Close()
+				stalled.ResumeReads()
+			}()
+			st.connected, st.registered = false, false
+			if f := emitAndCheck(evs, kinds, where, map[int]bool{ci: true}); f != nil {
+				f.Sig = "burst:" + f.Sig
+				return f
+			}
 		case "stuck":
 			// the client's connection dies while the proxy-side reader of that client is busy creating a
 			// backend session; events emitted in that window must still reach everybody else
@@ -395,6 +422,9 @@ func c14Gen(rt *rapid.T) c14Case {
 			a.Op = "failover"
 		default:
 			a.Op, a.N = "stuck", rapid.IntRange(2, 5).Draw(rt, "stuckevents")
+			if rapid.IntRange(0, 7).Draw(rt, "burst") == 0 {
+				a.Op, a.N = "burst_stalled", rapid.IntRange(2200, 3200).Draw(rt, "burstevents")
+			}
 		}
 		c.Actions = append(c.Actions, a)
 	}
@@ -427,6 +457,11 @@ func TestC14(t *testing.T) {
 					if ev == "SCHEMA_CHANGE" && conn[ci] {
 						reg[ci] = true
 					}
+				}
+			case "burst_stalled":
+				if conn[ci] && reg[ci] {
+					conn[ci], reg[ci] = false, false
+					disturbed = true
 				}
 			case "disconnect", "stuck":
 				conn[ci], reg[ci] = false, false
